@@ -13,20 +13,27 @@ import (
 	"os"
 	"regexp"
 	"strconv"
+	"sync"
 	"time"
 
 	"github.com/alttpo/snes/emulator"
 )
 
 type evLogger struct {
-	emit func(map[string]interface{})
-	sys  *emulator.System
-	lost *bool
+	emit   func(map[string]interface{})
+	sys    *emulator.System
+	lost   *bool
+	writes *int // trace lines of the current run; more than the budget allows means RunUntil does not terminate
+	limit  *int
 }
 
 var reLinePC = regexp.MustCompile(`([0-9a-f]{2}):([0-9a-f]{4})`)
 
 func (l *evLogger) Write(p []byte) (int, error) {
+	*l.writes++
+	if *l.writes > *l.limit {
+		panic(abortRun{}) // every traced instruction consumes at least one cycle: the loop is not making progress
+	}
 	m := reLinePC.FindSubmatch(p)
 	pc := -1
 	if m != nil {
@@ -75,8 +82,15 @@ func init() {
 		w := bufio.NewWriterSize(f, 1<<20)
 		defer w.Flush()
 		cnt := 0
+		var emu sync.Mutex
+		muted := false // set when a run hangs: the stuck goroutine must not write any more
 		emit := func(ev map[string]interface{}) {
 			b, _ := json.Marshal(ev)
+			emu.Lock()
+			defer emu.Unlock()
+			if muted {
+				return
+			}
 			w.Write(b)
 			w.WriteByte('\n')
 			cnt++
@@ -112,7 +126,8 @@ func init() {
 			}
 		}
 		lostFlag := false
-		lg := &evLogger{emit: emit, sys: s, lost: &lostFlag}
+		logWrites, logLimit := 0, 0
+		lg := &evLogger{emit: emit, sys: s, lost: &lostFlag, writes: &logWrites, limit: &logLimit}
 		for i := 0; i < n; i++ {
 			// program at $00:8000 (ROM[0:]), instruction starts recorded
 			for j := 0; j < 0x400; j++ {
@@ -260,6 +275,7 @@ func init() {
 					s.Logger = nil
 				}
 				steps, limit = 0, budget+3
+				logWrites, logLimit = 0, budget+3
 				lostFlag = false
 				if observe {
 					emit(map[string]interface{}{"k": "begin", "target": target, "budget": budget, "pc": start, "all": int(s.CPU.AllCycles),
@@ -286,6 +302,9 @@ func init() {
 					// RunUntil does not return (and does not even reach an OnPC callback): report and stop recording --
 					// the stuck goroutine cannot be killed, so the remaining runs are skipped
 					emit(map[string]interface{}{"k": "abort", "pc": -1, "all": -1, "hung": true})
+					emu.Lock()
+					muted = true
+					emu.Unlock()
 					hung = true
 					return fin
 				}
